@@ -157,6 +157,7 @@ AtomProps(atom, m) ==
      [] atom = "msg.oracle" -> {"C15"}
      [] atom = "msg.unknown" -> {"C07"}
      [] atom \in {"wire.canon", "wire.url"} -> {"C19"})
+  \cup R(m = "migrate_roundtrip", "C18")
   \* halting / resuming may change nothing but the flag (and the three totals)
   \cup R(m \in {"circuit_breaker", "resume_contract"} /\ atom # "msg.oracle", "C10")
 
@@ -200,6 +201,7 @@ SuccessProps(w, call) ==
      [] m \in {"accept_ownership", "transfer_ownership", "revoke_ownership_transfer",
                "t_accept_ownership", "t_transfer_ownership", "t_revoke_ownership_transfer"} -> {"C12"}
      [] m \in {"t_swap_in", "t_swap_out", "t_spend", "t_update_config"} -> {"C13"}
+     [] m = "migrate_roundtrip" -> {"C18"}
      [] OTHER -> {})
   \cup R(w.c.cfg.oracle = None /\ m \in {"liquid_stake", "submit_batch", "withdraw", "receive_rewards", "resume_contract"}, "C15")
 
